@@ -8,15 +8,16 @@ CONSTANTS
   MaxNodes = 1
   MaxStack = 1
   BugOptionalDropsNone = FALSE
-  AnnChoices = {"noann", "int", "QA", "OptInt", "T"}
+  AnnChoices = {"noann", "int", "QA"}
   DefaultChoices = {"none", "int:1", "..."}
-  RetChoices = {"noann", "int", "T"}
-  AsyncChoices = {FALSE, TRUE}
+  RetChoices = {"noann", "int"}
+  AsyncChoices = {FALSE}
   FutureChoices = {FALSE, TRUE}
   DunderChoices = {FALSE, TRUE}
   MaxParams = 2
-  MaxPos = 3
-  MaxKw = 2
+  MaxPos = 2
+  MaxKw = 1
   BugRuntimeIgnoresKwDefaults = FALSE
-INVARIANT EmitHeader
+INVARIANT HeaderViewsAgree
+INVARIANT ViewsMatchInspect
 CHECK_DEADLOCK FALSE
